@@ -106,6 +106,10 @@ func execFunctionCall(context *exprContext, expr *grammar.Grammar) error {
 		return fmt.Errorf("error invoking function %s: %s", qname, err)
 	}
 
+	if result == nil {
+		return fmt.Errorf("function %s returned neither a result nor an error", qname)
+	}
+
 	context.result = result
 
 	return nil
